@@ -118,14 +118,20 @@ class OpRunner(object):
         return p, None, 'abs'
 
     # ---- put ----------------------------------------------------------------------
-    def spell_entry(self, a, spelling=None):
-        """-> (argument bytes, cwd, spelling name) for an entry argument"""
+    def spell_entry(self, a, spelling=None, earlier=()):
+        """-> (argument bytes, cwd, spelling name) for an entry argument.
+        earlier: the entries named by earlier arguments of the same command"""
         w = self.w
         pb = w.lpath(a['r'], a['d'], a['n'])
         parent = os.path.dirname(pb)
         name = os.path.basename(pb)
         exists = os.path.lexists(pb)
         isdirlike = exists and os.path.isdir(pb)       # directory or link to directory
+        if isdirlike and os.path.islink(pb):
+            # 'link/' only designates the link while its target exists: not if an earlier argument trashes the target
+            tgt = os.path.realpath(pb)
+            if any(tgt == e or tgt.startswith(e + b'/') for e in earlier):
+                isdirlike = False
         opts = ['abs', 'rel', 'dotrel', 'updown', 'viaparentlink', 'dblslash', 'linkdotdot']
         if not exists:
             opts += ['emptystring']
@@ -232,10 +238,13 @@ class OpRunner(object):
         cwd = None
         stdin = b''
         spelled = []
+        earlier = []
         for k, a in enumerate(lab['args']):
             want = spellings[k] if spellings else None
             if a['class'] == 'entry':
-                s, c, sp = self.spell_entry(a, want)
+                s, c, sp = self.spell_entry(a, want, earlier=earlier)
+                earlier.append(os.path.realpath(os.path.dirname(w.lpath(a['r'], a['d'], a['n']))) + b'/' +
+                               os.path.basename(w.lpath(a['r'], a['d'], a['n'])))
             elif a['class'] == 'dot':
                 s, c, sp = self.spell_dot(a, want)
             else:
@@ -245,7 +254,7 @@ class OpRunner(object):
             elif c != cwd:
                 # several arguments share one cwd: re-spell relative ones as absolute
                 if a['class'] == 'entry':
-                    s, c, sp = self.spell_entry(a, 'abs')
+                    s, c, sp = self.spell_entry(a, 'abs' if not sp.startswith('slash') else sp, earlier=earlier[:-1])
                 elif a['class'] == 'dot':
                     s, c, sp = self.spell_dot(a, 'abs/.')
                 else:
